@@ -1,4 +1,5 @@
 use crate::common::Ctx;
+pub mod c07;
 pub mod c08;
 pub mod c16;
 pub mod c12;
@@ -40,6 +41,7 @@ pub fn dispatch(ctx: &mut Ctx) -> bool {
         "C12" => c12::run(ctx),
         "C16" => c16::run(ctx),
         "C08" => c08::run(ctx),
+        "C07" => c07::run(ctx),
         _ => return false,
     }
     true
